@@ -1205,3 +1205,15 @@ package server
 //@   requires self != nil
 //@   ensures C13.valueframe: implies(isnil(result1), result0 != nil && len(result0.Data) >= 6 && implies(result0.DataFlag&0x10 != 0, len(result0.Data) >= 8 && voffC(result0) <= len(result0.Data)))
 //@   modifies all
+
+// C05/C06: the millisecond wheel only keeps, for firing, requests whose whole wait fits the wheel; a request
+// with 3000 ms or more to go is handed to the second wheel when its bucket comes up (end of each iteration of
+// the bucket scan: an entry that stays in the bucket is live and short)
+//@ func (*LockDB).checkMillisecondTimeOut
+//@   requires self != nil
+//@   loop#2 backedge C05.ms.handover: implies(nodeQueues[j] != nil, !lock.timeouted && lock.command.Timeout < MILLISECOND_QUEUE_LENGTH)
+//@   modifies all
+//@ func (*LockDB).checkMillisecondExpried
+//@   requires self != nil
+//@   loop#2 backedge C06.ms.handover: implies(nodeQueues[j] != nil, !lock.expried && lock.command.Expried < MILLISECOND_QUEUE_LENGTH)
+//@   modifies all
